@@ -23,6 +23,8 @@
 //!   cs_add @h <amt>             => ok|skip !
 //!   cs_extend @h:<amt> …        => ok !
 //!   cs_clear                    => ok ! <destroyed…>
+//!   cs_clear_fault <n>          => panic|ok ! <destroyed…>    `clear()` while the n-th destructor run of the op panics
+//!                                                             (caught): every amount destroyed once, the set is empty
 //!   cs_join_shared [lend] <kinds>          => <items> | <dumps> !
 //!   cs_join_mut [lend] <marker> <kinds>    => <items> | <dumps> !     every visited amount += [marker]
 //!   cs_consume [lend] all|<n> <kinds>      => <items> | <dumps> ! <destroyed…>   by-value join, ≤ n items
@@ -67,6 +69,8 @@ thread_local! {
     static TABLE: RefCell<Vec<Slot>> = RefCell::new(Vec::new());
     static DROPS: RefCell<Vec<Vec<i64>>> = RefCell::new(Vec::new());
     static REGROUPED: std::cell::Cell<bool> = std::cell::Cell::new(false);
+    /// `cs_clear_fault n`: the n-th destruction of a live amount from now on panics (once)
+    static FAULT_AT: std::cell::Cell<Option<usize>> = std::cell::Cell::new(None);
 }
 
 pub struct Amount(usize);
@@ -114,6 +118,13 @@ impl Drop for Amount {
                 }
             }
         });
+        // (outside the table borrow) an armed fault fires in the destructor itself, like a user type whose `Drop` panics
+        let fire = FAULT_AT.with(|f| match f.get() {
+            Some(1) => { f.set(None); true }
+            Some(n) => { f.set(Some(n - 1)); false }
+            None => false,
+        });
+        if fire && !std::thread::panicking() { panic!("verif: destructor of an amount panics"); }
     }
 }
 fn drops_take() -> Vec<Vec<i64>> {
@@ -207,6 +218,7 @@ enum Op {
     CsAdd(usize, Vec<i64>),
     CsExtend(Vec<(usize, Vec<i64>)>),
     CsClear,
+    CsClearFault(usize),
     JoinShared(bool, [bool; 3]),
     JoinMut(bool, i64, [bool; 3]),
     Consume(bool, Option<usize>, [bool; 3]),
@@ -238,6 +250,7 @@ fn show_op(op: &Op) -> String {
         Op::CsAdd(h, a) => format!("cs_add @{} {}", h, show_amt(a)),
         Op::CsExtend(ps) => format!("cs_extend{}", show_pairs(ps)),
         Op::CsClear => "cs_clear".into(),
+        Op::CsClearFault(n) => format!("cs_clear_fault {}", n),
         Op::JoinShared(lend, k) => format!("cs_join_shared{}{}", l(lend), show_kinds(k)),
         Op::JoinMut(lend, m, k) => format!("cs_join_mut{} {}{}", l(lend), m, show_kinds(k)),
         Op::Consume(lend, n, k) => format!(
@@ -287,6 +300,7 @@ fn parse_op(line: &str) -> Option<Op> {
         "cs_add" => Op::CsAdd(parse_slot(rest.first()?)?, parse_amt(rest.get(1)?)?),
         "cs_extend" => Op::CsExtend(rest.iter().map(|t| parse_pair(t)).collect::<Option<Vec<_>>>()?),
         "cs_clear" => Op::CsClear,
+        "cs_clear_fault" => Op::CsClearFault(ts.get(1)?.parse().ok()?),
         "cs_join_shared" => Op::JoinShared(lend, parse_kinds(rest)?),
         "cs_join_mut" => Op::JoinMut(lend, rest.first()?.parse().ok()?, parse_kinds(&rest[1..])?),
         "cs_consume" => {
@@ -489,6 +503,12 @@ impl Exec {
                 self.cs.clear();
                 "ok".into()
             }
+            Op::CsClearFault(n) => {
+                FAULT_AT.with(|f| f.set(Some((*n).max(1))));
+                let r = catch_unwind(AssertUnwindSafe(|| self.cs.clear()));
+                FAULT_AT.with(|f| f.set(None));
+                if r.is_err() { "panic".into() } else { "ok".into() }
+            }
             Op::JoinShared(lend, k) => {
                 let all = self.all_mask();
                 let ds = self.world.read_storage::<CompD>();
@@ -624,6 +644,7 @@ impl Exec {
 
 struct Gen {
     stale: bool,
+    fault: bool,
     next_val: i64,
     /// generation under which an index entered the current set (live mode keeps them consistent)
     cs_gen: HashMap<u32, i32>,
@@ -713,7 +734,7 @@ impl Gen {
             return Op::Create;
         }
         let any = |rng: &mut Rng| rng.below(ex.log.len() as u64) as usize;
-        match rng.weighted(&[8, 2, 5, 9, 2, 1, 5, 12, 7, 2, 8, 5, 5]) {
+        match rng.weighted(&[8, 2, 5, 9, 2, 1, 5, 12, 7, if self.fault { 8 } else { 2 }, 8, 5, 5]) {
             0 => Op::Create,
             1 => Op::Skip(*rng.pick(&[1usize, 2, 3, 30, 70, 300])),
             2 => {
@@ -740,7 +761,7 @@ impl Gen {
             8 => { let max = if rng.chance(1, 8) { 50 } else { 6 }; Op::CsExtend(self.pairs(rng, ex, max)) }
             9 => {
                 self.cs_gen.clear();
-                Op::CsClear
+                if self.fault && rng.chance(3, 4) { Op::CsClearFault(rng.range(1, 4) as usize) } else { Op::CsClear }
             }
             10 => Op::JoinShared(rng.chance(1, 3), self.kinds(rng)),
             11 => {
@@ -756,10 +777,10 @@ impl Gen {
     }
 }
 
-fn run_random(rng: &mut Rng, len: usize, stale: bool, out: &mut String) {
+fn run_random(rng: &mut Rng, len: usize, stale: bool, fault: bool, out: &mut String) {
     table_reset();
     let mut ex = Exec::new();
-    let mut g = Gen { stale, next_val: 0, cs_gen: HashMap::new(), pending: Vec::new() };
+    let mut g = Gen { stale, fault, next_val: 0, cs_gen: HashMap::new(), pending: Vec::new() };
     for _ in 0..len {
         let op = g.next_op(rng, &ex);
         ex.step(&op, out);
@@ -810,13 +831,15 @@ fn main() {
             let cases: usize = args[3].parse().unwrap();
             let maxlen: usize = args[4].parse().unwrap();
             let stale = args.get(5).map(|s| s == "stale").unwrap_or(false);
+            // `fault`: live scripts in which most `clear`s run while a destructor panics, and clears are more frequent
+            let fault = args.get(5).map(|s| s == "fault").unwrap_or(false);
             let mut master = Rng::new(seed ^ if stale { 0x57a1e } else { 0xc5 });
             for c in 0..cases {
                 let sub = master.next();
                 let mut rng = Rng::new(sub);
                 let len = rng.range(3, maxlen.max(3) as u64) as usize;
                 out.push_str(&format!("case {}{}-{}\n", if stale { "t" } else { "g" }, c, sub));
-                run_random(&mut rng, len, stale, &mut out);
+                run_random(&mut rng, len, stale, fault, &mut out);
             }
         }
         Some("run") => {
